@@ -47,6 +47,8 @@ It(id, act, name, def, ref, typ, sym, f, of, items, n) ==
 TBase(id, name, ref)          == It(id, "base", name, <<>>, ref, NoName, NoName, NoRat, NoName, <<>>, 0)
 TBaseQ(id, name, ref, q)      == It(id, "base", name, <<>>, ref, NoName, NoName, q, NoName, <<>>, 0)
 TDer(id, name, def, ref)      == It(id, "derived", name, def, ref, NoName, NoName, NoRat, NoName, <<>>, 0)
+\* a type whose definition is a term of UNITS (of = a unit symbol) instead of a term of types: never a valid definition
+TBadDef(id, name, ref, of)    == It(id, "baddef", name, <<>>, ref, NoName, NoName, NoRat, of, <<>>, 0)
 UScaled(id, typ, sym, f, of)  == It(id, "scaled", NoName, <<>>, NoName, typ, sym, f, of, <<>>, 0)
 UPlain(id, typ, sym)          == It(id, "plain", NoName, <<>>, NoName, typ, sym, NoRat, NoName, <<>>, 0)
 UTerm(id, typ, sym, items)    == It(id, "term", NoName, <<>>, NoName, typ, sym, NoRat, NoName, items, 0)
@@ -76,11 +78,15 @@ AllItems == {
   TDer("tA1", "A1", << <<"A", 1>> >>, "a1"),                \* same dimension as base type A
   TDer("tMpA_dup", "MpA2", << <<"M", 1>>, <<"A", -1>> >>, "mpx"),  \* dimension of MpA again, explicit symbol, no ref unit derivable
   TDer("tApB2", "ApB2", << <<"A", 1>>, <<"B", -2>> >>, "apb2"),
+  TBadDef("tBadDef", "Bd", "bdref", "ka"),                          \* rejected: leaves neither a type nor the symbol bdref
+  TBase("tBd_later", "Bd2", "bdref"),                               \* ... which therefore stays free for this one
   TDer("tA3", "A3", << <<"A", 3>> >>, "a3"),                        \* a cube type - with or without the square type
   TDer("tABpM", "ABpM", << <<"A", 1>>, <<"B", 1>>, <<"M", -1>> >>, "GEN"),  \* a component without reference unit comes last
   TDer("tA2_symdup", "A2s", << <<"A", 2>> >>, "a"),                 \* free dimension, reference symbol already taken
   TDer("tAB_symdup", "ABs", << <<"A", 1>>, <<"B", 1>> >>, "b"),
   UScaled("ka", "A", "ka", <<10, 1>>, "a"),
+  UScaled("a_one", "A", "a1x", <<1, 1>>, "a"),              \* exactly one reference unit under another symbol
+  UScaled("a2x", "A2", "a2x", <<1, 100>>, "ka2"),            \* 1/100 ka2 = 1 a2: an alias of the reference unit declared late
   UScaled("xa5", "A", "xa5", <<5, 1>>, "a"),                 \* same scale as ha (= 1/2 ka): equal, yet another unit
   UScaled("ppa1", "MpA", "ppa1", <<1, 1>>, "ppa"),           \* exactly one ppa, under another symbol
   UScaled("ppa10", "MpA", "ppa10", <<10, 1>>, "ppka"),       \* 10 p/ka = 1 p/a: worth what ppa is worth, in a type without reference unit
@@ -99,6 +105,8 @@ AllItems == {
   UTerm("kab", "AB", "kab", << <<"ka", 1>>, <<"b", 1>> >>),
   UTerm("bad_dim", "AB", "bad", << <<"ka", 1>>, <<"ka", 1>> >>),      \* denotes A^2, not A*B
   UTerm("bad_cancel", "A", "bc", << <<"ka", 1>>, <<"a", -1>> >>),     \* the units cancel: a number, not an A unit
+  UTermN("are", "A2", "are", <<100, 1>>, 1, << <<"a", 2>> >>),         \* 100 * a^2: a unit of A2 ...
+  UTermN("bad_are", "A", "bare", <<100, 1>>, 1, << <<"a", 2>> >>),     \* ... and not a unit of A
   UTermN("milli_a", "A", "mla", <<1000, 1>>, -1, << <<"a", 1>> >>),    \* 1000^-1 a with the PYTHON INT 1000: 1/1000 a
   UTermN("kilo2_a", "A", "k2a", <<10, 1>>, 2, << <<"ka", 1>> >>),       \* 10^2 ka = 1000 a
   UTerm("sq", "A2", "sq", << <<"ha", 1>>, <<"ka", 1>> >>),
@@ -124,6 +132,7 @@ AllItems == {
   OMul("m_qpa_a", "qpa", "a"), OMul("m_a_qpa", "a", "qpa"), ODiv("d_ppa_qpa", "ppa", "qpa"),
   OMul("m_p_a", "p", "a"),     OMul("m_p_q", "p", "q"),
   ODiv("d_ka_cb", "ka", "cb"), ODiv("d_kk_ka", "kk", "ka"), ODiv("d_ka2_ka", "ka2", "ka"),
+  ODiv("d_ppkad_ppa", "ppkad", "ppa"), ODiv("d_ppa_ppkad", "ppa", "ppkad"),
   ODiv("d_ka_b", "ka", "b"),   ODiv("d_a2_ka", "a2", "ka"), ODiv("d_ka_ha", "ka", "ha"),
   ODiv("d_ka_ka", "ka", "ka"), ODiv("d_p_a", "p", "a"),     ODiv("d_p_ka", "p", "ka"),
   ODiv("d_p_q", "p", "q"),     ODiv("d_p_p", "p", "p"),     ODiv("d_kab_b", "kab", "b"),
@@ -257,6 +266,8 @@ DeclDerived(i) ==
                         ELSE Append(units, NewUnit(RefSym(i), i.name, ROne, UnitVec(RefSym(i)), TRUE))
             /\ cache' = cache /\ Accept(i)
 
+DeclBadDef(i) == i.act = "baddef" /\ HasUnit(i.of) /\ ~HasType(i.name) /\ Reject(i)
+
 AddUnit(i, num, vec, base) ==
     /\ units' = Append(units, NewUnit(i.sym, i.typ, num, vec, base))
     /\ UNCHANGED <<types, cache>> /\ Accept(i)
@@ -323,13 +334,14 @@ UnitEq(u, v) == u.typ = v.typ /\ TypeByName(u.typ).ref # NoName /\ u.num = v.num
 CanTry(i) ==
     CASE i.act = "base"    -> ~HasType(i.name)
       [] i.act = "derived" -> DefTypesKnown(i.def) /\ ~HasType(i.name)
+      [] i.act = "baddef"  -> HasUnit(i.of) /\ ~HasType(i.name)
       [] i.act = "scaled"  -> HasType(i.typ) /\ HasUnit(i.of)
       [] i.act = "plain"   -> HasType(i.typ)
       [] i.act = "term"    -> HasType(i.typ) /\ ItemsKnown(i.items)
       [] i.act = "derive"  -> HasType(i.typ) /\ \A k \in DOMAIN i.items : HasUnit(i.items[k])
       [] i.act = "pow"     -> HasUnit(i.sym)
       [] OTHER             -> HasUnit(i.sym) /\ HasUnit(i.of)
-Step(i) == DeclBase(i) \/ DeclDerived(i) \/ NewScaled(i) \/ NewPlain(i) \/ NewTerm(i)
+Step(i) == DeclBase(i) \/ DeclDerived(i) \/ DeclBadDef(i) \/ NewScaled(i) \/ NewPlain(i) \/ NewTerm(i)
            \/ NewDerived(i) \/ DoOp(i)
 Next == \E i \in MenuItems : Step(i)
 \* the initial state has level 1: histories of at most MaxSteps steps
